@@ -35,10 +35,10 @@ func (r *Rng) Intn(n int) int {
 	}
 	return int(r.U64() % uint64(n))
 }
-func (r *Rng) Range(lo, hi int) int { return lo + r.Intn(hi-lo+1) } // inclusive
+func (r *Rng) Range(lo, hi int) int  { return lo + r.Intn(hi-lo+1) } // inclusive
 func (r *Rng) Chance(p float64) bool { return float64(r.U64()>>11)/float64(1<<53) < p }
-func (r *Rng) Fork(tag uint64) *Rng { return NewRng(r.U64(), tag) }
-func pick[T any](r *Rng, xs []T) T { return xs[r.Intn(len(xs))] }
+func (r *Rng) Fork(tag uint64) *Rng  { return NewRng(r.U64(), tag) }
+func pick[T any](r *Rng, xs []T) T   { return xs[r.Intn(len(xs))] }
 func (r *Rng) Perm(n int) []int {
 	p := make([]int, n)
 	for i := range p {
